@@ -10,6 +10,16 @@ def _model_ok(c):
     return U.has_model(U.get_mixture(c["mixture"]), c["model"])
 
 
+SLOW_AREA = 2e-4  # with 50 kg of feed and the shorter step: successive states differ in the 7th-8th significant digit
+
+
+def _slow_ok(c):
+    """the slow-run area is combined with the big feed and the shorter step only (a thin extra slice of the lattice)."""
+    if c["area"] != SLOW_AREA:
+        return True
+    return c["amount"] == 50.0 and c["dt"] < 1.0 and c["steps"] >= 3
+
+
 def ideal_space(tier, seed, coarse=False):
     q = tier == "quick"
     modes = ["vac", ("T", -20.0), ("p", 0.5)] if q else ["vac", ("T", -60.0), ("T", -20.0), ("p", 0.5), ("p", 5.0)]
@@ -20,7 +30,7 @@ def ideal_space(tier, seed, coarse=False):
         "model": ["NRTL", "UNIQUAC"],
         "mode": modes,
         "prog": ["none", "poly3", "exp", "log3"] if q else ["none", "poly", "exp", "log", "poly3", "exp3", "log3"],
-        "area": [0.05, 1.0] if q else [0.05, 1.0, 30.0],
+        "area": [0.05, 1.0, SLOW_AREA] if q else [0.05, 1.0, 30.0, SLOW_AREA],
         "amount": [0.047, 50.0],
         "dt": core.lat([0.1, 2.0], seed),
         "steps": [1, 3, 6] if q else [1, 3, 6, 12],
@@ -36,7 +46,7 @@ def ideal_space(tier, seed, coarse=False):
             return False
         if c["kind"] == "ideal_iso" and c["prog"] != "none":
             return False
-        return True
+        return _slow_ok(c)
 
     return core.Space("ideal_processes", alph, ok)
 
@@ -63,7 +73,7 @@ def nonideal_space(tier, seed):
         "curves": [CURVE_CONFIGS["one"], CURVE_CONFIGS["two"]] if q else list(CURVE_CONFIGS.values()),
         "init_perm": [None, {"values": (2.5e-2, 3.0e-5)}] if q else [None, {"values": (2.5e-2, 3.0e-5)},
                                                                      {"values": (1.0e-2, 8.0e-5), "units": "GPU"}],
-        "area": [0.05, 1.0],
+        "area": [0.05, 1.0, SLOW_AREA],
         "amount": [0.047, 50.0],
         "dt": core.lat([0.1, 2.0], seed),
         "steps": [1, 3, 6] if q else [1, 3, 6, 12],
@@ -77,7 +87,7 @@ def nonideal_space(tier, seed):
             return False
         if c["kind"] == "nonideal_iso" and c["prog"] != "none":
             return False
-        return True
+        return _slow_ok(c)
 
     return core.Space("nonideal_processes", alph, ok)
 
